@@ -70,7 +70,7 @@ def _as_model(job, mirrored):
     s.update(cps)
     beta = 0.0 if sym_case else float(rng.uniform(-6, 6))
     cgy = 0.0 if sym_case else float(rng.uniform(-0.4, 0.4))
-    flow = dict(v=float(rng.uniform(150, 230)), alpha=float(rng.uniform(1, 5)), beta=beta, rho=float(rng.uniform(0.4, 0.9)), Mach_number=0.5, empty_cg=[0.3, cgy, 0.05], load_factor=float(rng.choice([1.0, 2.5])), W0=4000.0)
+    flow = dict(v=float(rng.uniform(150, 230)), alpha=float(rng.uniform(4, 8)), beta=beta, rho=float(rng.uniform(0.4, 0.9)), Mach_number=0.5, empty_cg=[0.3, cgy, 0.05], load_factor=float(rng.choice([1.0, 2.5])), W0=4000.0, R=1.0e6)
     if job["npm"]:
         flow["point_masses"] = [250.0]
         flow["point_mass_locations"] = [[0.5, 0.0 if sym_case else -2.1, 0.1]]
@@ -124,6 +124,10 @@ def _as_job(job):
     tol = 1e-8
     bad = []
     a = _as_obs(_as_model(job, False))
+    # a point whose Breguet fuel burn exceeds 100 x the empty weight (L/D -> 0) is not an admissible cruise point: the
+    # centre of gravity then is a ratio of two ~1e13 numbers and loses all digits (same rule as C01/C02: CL > 0.05)
+    if not (float(a["scalars"]["CL"].ravel()[0]) > 0.05 and 0.0 < float(a["scalars"]["fuelburn"].ravel()[0]) < 100.0 * 4000.0):
+        return {"k": job["k"], "job": job, "key": ["as_inadmissible", job["fem"], job["k"]], "bad": [], "inadmissible": True}
     if job["asym"] == 0.0:
         b = a  # a mirror-symmetric model is a fixed point of the law
         what = "symfix"
